@@ -41,7 +41,6 @@ pub fn transparent_body(v: FieldValue) {
     let t: TransparentValue = copy.into();
     let back: FieldValue = t.into();
     let ok = same(&v, &back);
-    kani::cover!(true, "witness: end of harness reached");
     std::mem::forget(v);
     std::mem::forget(back);
     assert!(ok, "FieldValue -> TransparentValue -> FieldValue is the identity");
@@ -69,7 +68,6 @@ pub fn type_text_body(base: &str, d: usize) {
         },
         Err(_) => false,
     };
-    kani::cover!(true, "witness: end of harness reached");
     std::mem::forget(parsed);
     std::mem::forget(text);
     std::mem::forget(t);
@@ -82,6 +80,7 @@ macro_rules! tv {
         #[kani::unwind($unw)]
         pub fn $name() {
             transparent_body(mkv!($v));
+            kani::cover!(true, "witness: end of harness reached");
         }
     };
 }
@@ -91,6 +90,7 @@ macro_rules! tt {
         #[kani::unwind($unw)]
         pub fn $name() {
             type_text_body($base, $d);
+            kani::cover!(true, "witness: end of harness reached");
         }
     };
 }
